@@ -21,7 +21,129 @@ def C04():
     )
 
 
-PROPERTIES = {"C04": C04}
+def C06():
+    from contracts.placement import ShouldShow, ShouldShowElement, PageBreak, PageSettings
+    from contracts import replayers as R
+    return Property(
+        "C06",
+        units=[ContractUnit(ShouldShow()), ContractUnit(ShouldShowElement()), ContractUnit(PageBreak()), ContractUnit(PageSettings())],
+        level="proof",
+        technique="postconditions on the placement predicates and on the page-break / page-settings emitters (token view of the built string), VCs by z3",
+        trusted_base=[SOLVERS, ENGINE, "round(): deterministic function with |round(x)-x| <= 1/2; floats treated as reals (L3)",
+                      "RTF reader interprets \\paperw/\\paperh/\\marg* as the specification says (L4)"],
+        assumptions=["chunk order of PageRenderer.render / _encode_figure_only and needs_header in the paginate strategies are "
+                     "not yet under contract in this check (listed in DESIGN 4/C06)"],
+        replayers={"services/document_service.py::RTFDocumentService.generate_page_break": R.replay_page_geometry,
+                   "rtf/syntax.py::RTFSyntaxGenerator.generate_page_settings": R.replay_page_geometry,
+                   "encoding/renderer.py::PageRenderer._should_show": R.replay_should_show,
+                   "pagination/processor.py::PageFeatureProcessor._should_show_element": R.replay_should_show},
+        design_ref="4/C06, A15-A16",
+    )
+
+
+def C08():
+    from contracts.row import ColWidths, InchToTwip, LEMMAS
+    from contracts import replayers as R
+    return Property(
+        "C08",
+        units=[ContractUnit(ColWidths()), ContractUnit(InchToTwip())] + LEMMAS,
+        level="proof",
+        technique="comprehension invariant cum*total == col_width*P[i] (nonlinear real arithmetic) on the real Utils._col_widths; inductive lemma for prefix sums",
+        trusted_base=[SOLVERS, ENGINE, "floats treated as reals (L3): 'within one twip' is exact in the model"],
+        assumptions=["width vectors reaching _col_widths (RTFDocument.__init__, prepare_dataframe_for_body_encoding, "
+                     "encode_column_header) are separate carriers not yet under contract in this check"],
+        replayers={"row.py::Utils._col_widths": R.replay_col_widths, "row.py::Utils._inch_to_twip": R.replay_inch_to_twip},
+        design_ref="4/C08, A4",
+    )
+
+
+def C10():
+    from contracts.row import ConvertSpecialChars
+    from contracts import replayers as R
+    return Property(
+        "C10",
+        units=[ContractUnit(ConvertSpecialChars())],
+        level="proof",
+        technique="per-character obligations over a symbolic code point (all scalar values at once) inside the loop invariant of the real "
+                  "TextContent._convert_special_chars: ASCII output, signed 16-bit \\u range, decode(piece) == character incl. surrogate pairs",
+        trusted_base=[SOLVERS, ENGINE, "homomorphism laws of decode/ascii over string concatenation (DESIGN 1.5)",
+                      "RTF 1.9 \\u / \\uc decode rule (L4)", "str.replace / LaTeX pass as uninterpreted functions (their output is the loop's input)"],
+        assumptions=["domain: Unicode scalar values except C0/C1 controls and the raw RTF metacharacters \\ { } (C01's hypothesis on text)",
+                     "call sites that must route text through the escaping (paragraph_format re-wrap, subline_by heading, spanning rows) "
+                     "are not yet under contract in this check"],
+        replayers={"row.py::TextContent._convert_special_chars": R.replay_convert_special_chars},
+        design_ref="4/C10, A13",
+    )
+
+
+def C12():
+    from contracts.colors import GetRtfColorIndex, GenerateColorTable, LEMMAS, TABLES
+    from contracts import replayers as R
+    return Property(
+        "C12",
+        units=[ContractUnit(GetRtfColorIndex()), ContractUnit(GenerateColorTable())] + LEMMAS + TABLES,
+        level="proof",
+        technique="both functions are shown to compute the same sorted(filter(used)) term; index contract + table loop invariant + composition "
+                  "lemma table[idx(c)] == rgb(c); real colour tables checked exhaustively",
+        trusted_base=[SOLVERS, ENGINE, "stdlib: filtering comprehension, sorted(key=), list.index as functions of the input list with their defining axioms (DESIGN 1.7)"],
+        assumptions=["the document context (which colour list every emitter call resolves against) and collect_document_colors coverage "
+                     "are not yet under contract in this check; font table references likewise"],
+        replayers={"services/color_service.py::ColorService": R.replay_color_index, "lemma::c12": R.replay_color_index},
+        design_ref="4/C12, A17",
+    )
+
+
+def C16():
+    from contracts.figures import UNITS, TABLES
+    from contracts import replayers as R
+    return Property(
+        "C16",
+        units=[ContractUnit(u) for u in UNITS] + TABLES,
+        level="proof",
+        technique="loop invariant on the 80-character windows of data.hex(); byte-layout postconditions for PNG/JPEG headers; token view of the "
+                  "picture group; exhaustive suffix table",
+        trusted_base=[SOLVERS, ENGINE, "bytes.hex / str slicing / struct.unpack big-endian (assumed, DESIGN 1.7)",
+                      "concatenating consecutive windows covering [0, L) yields the string (fact about strings)"],
+        assumptions=["one figure per page / caption placement in _encode_figure_only and rtf_read_figure order are not yet under contract in this check"],
+        replayers={"services/figure_service.py::RTFFigureService": R.replay_figures},
+        design_ref="4/C16, A19",
+    )
+
+
+def C19():
+    import contracts.validators as V
+    from contracts import replayers as R
+
+    class _Lazy(ContractUnit):
+        pass
+    units = []
+
+    class ValidatorUnits:
+        kind = "contract"
+        deductive = True
+        name = "validators"
+
+        def run(self, index, tier, seed):
+            out = []
+            for u in V.build_units(index):
+                out.extend(ContractUnit(u).run(index, tier, seed))
+            return out
+    return Property(
+        "C19",
+        units=[ValidatorUnits()],
+        level="proof",
+        technique="exceptional postconditions on the real validators: returns iff all elements legal (loop invariants over flat / jagged nested "
+                  "values), raises only subclasses of ValueError; attribute existence taken from the real classes",
+        trusted_base=[SOLVERS, ENGINE, "pydantic runs the registered validators on construction and wraps ValueError into ValidationError (L1)"],
+        assumptions=["validate_text_format, RTFPage.validate_margin, RTFFigure.validate_figure_data, RTFDocument.validate_column_names and "
+                     "the decorator-coverage lemma are not yet under contract in this check",
+                     "empty vectors ([]) are outside the property's domain (validate_positive_value indexes v[0])"],
+        replayers={"attributes.py::": R.replay_validators, "input.py::": R.replay_validators},
+        design_ref="4/C19, A22",
+    )
+
+
+PROPERTIES = {"C04": C04, "C06": C06, "C08": C08, "C10": C10, "C12": C12, "C16": C16, "C19": C19}
 
 # ---- texts for MANIFEST.json (tools/gen_manifest.py) ------------------------------------------------------
 MANIFEST_TEXT = {
@@ -30,9 +152,51 @@ MANIFEST_TEXT = {
                 "page intervals) is shown inductive and implies: pages are non-empty contiguous intervals in order, a break occurs iff a "
                 "grouping rule forces it or the next row would overflow nrow minus the reserved rows, forced breaks always happen, and "
                 "all other columns are unchanged. Every row count, height vector and flag pattern is covered at once.",
-        "note": "Assumes the polars to_dicts/DataFrame round trip (audited by bounded execution), SMT solver soundness and the "
-                "executor's Python encoding. The group/subline flags are taken as given here (their computation in "
-                "calculate_row_metadata and the reservation count are separate units).",
+        "note": "Assumes the polars to_dicts/DataFrame round trip, SMT solver soundness and the executor's Python encoding. The "
+                "group/subline flags are taken as given here (their computation in calculate_row_metadata and the reservation count "
+                "are separate carriers).",
+    },
+    "C06": {
+        "text": "Proof, for all keywords and flag values, that both placement predicates equal all | first&is_first | last&is_last, and, for "
+                "all positive paper sizes and margins, that the page-break block and the document-start block emit the same eight integers "
+                "round(inches*1440) in the fixed order with integral parameters (token view of the real f-strings).",
+        "note": "Floats are reals, round() is a deterministic nearest-integer function. The ordering of blocks on a page (render) and the "
+                "figure-document loop are listed as carriers not yet under contract; nothing is claimed for them here.",
+    },
+    "C08": {
+        "text": "Unbounded proof on the real Utils._col_widths (any column count, any positive widths): boundaries are exactly "
+                "col_width*P[k+1]/sum, strictly increasing, first positive, last equal to col_width; inch_to_twip is within half a twip.",
+        "note": "Real arithmetic instead of IEEE doubles. Covers the arithmetic carrier of the property; the propagation of width vectors "
+                "through document construction and column removal is named as not yet under contract.",
+    },
+    "C10": {
+        "text": "One symbolic code point stands for all 1.1M scalar values: every appended piece is ASCII, every \\u parameter lies in "
+                "[-32768, 32767] with exactly one fallback character, and the RTF decode of the piece (incl. UTF-16 surrogate pairs) is the "
+                "input character; the loop invariant lifts this to whole strings of any length.",
+        "note": "Decode rule and concatenation homomorphisms are the trusted mathematical base; raw \\ { } and control characters are outside "
+                "the domain; text-bearing call sites other than the escaping function itself are named as not yet under contract.",
+    },
+    "C12": {
+        "text": "Proof that get_rtf_color_index and generate_rtf_color_table resolve against the same sorted list of used colours: a returned "
+                "index r >= 1 satisfies S[r-1] == colour and the table's entry r is rtf(S[r-1]); '' and black give 0; the table is empty "
+                "iff no non-default colour is used. The 657-entry tables are checked exhaustively for key-set equality, injective master "
+                "index and rgb/rtf agreement.",
+        "note": "filter/sorted/index are assumed stdlib contracts (functions of the input list with their defining axioms). Which colour list "
+                "is current when an emitter asks (document context on the three encode paths) is named as not yet under contract.",
+    },
+    "C16": {
+        "text": "Proofs on the real figure service: the payload is the consecutive 80-character windows of data.hex() joined by newlines "
+                "(any length), PNG/JPEG pixel sizes are the big-endian header words at the specified offsets with all reads in bounds and the "
+                "JPEG scan terminating, the picture group carries blip keyword by format, pixel size, floor(inches*1440) goals, balanced "
+                "braces; positional size lookup reuses the last value.",
+        "note": "bytes.hex, slicing and struct.unpack are assumed contracts; the per-page loop of figure documents is named as not yet under contract.",
+    },
+    "C19": {
+        "text": "For each validator under contract and each input shape (None, scalar, flat list, jagged nested list of any size) the real body "
+                "returns its input iff all elements are legal and otherwise raises a subclass of ValueError; any other exception class on any "
+                "path (e.g. AttributeError from a missing class attribute) is a violation.",
+        "note": "Relies on pydantic invoking the validators; legal sets (border styles, fonts, justifications, colours) are read from the real "
+                "tables. Validators not yet under contract are listed in the evidence.",
     },
 }
 NOT_APPLICABLE = {}
